@@ -5,7 +5,11 @@ package c17
 import (
 	"errors"
 	"fmt"
+	"go.uber.org/zap/zaptest"
 	"io"
+	"strings"
+	"sync"
+	"time"
 
 	"go.uber.org/zap"
 	"go.uber.org/zap/verif/internal/ev"
@@ -97,6 +101,16 @@ func runProgram(ops []op, level zapcore.Level, toggles bool) string {
 		// the logger fans out: ahead of the recording core sits a destination that refuses every other
 		// line; what the recording core receives must not depend on that
 		logCore = zapcore.NewTee(&pickyCore{en: core}, core)
+	}
+	// one program in forty logs through a sampled logger (first two per level and message, nothing
+	// thereafter, within the hour): which lines arrive is then a matter of each line's own text
+	nbytes := 0
+	for _, o := range ops {
+		nbytes += len(o.Chunk)
+	}
+	sampled := len(ops)%5 == 2 && nbytes%8 == 3 && !toggles // (a sampler's counter table is half a megabyte)
+	if sampled {
+		logCore = zapcore.NewSamplerWithOptions(logCore, time.Hour, 2, 0)
 	}
 	w := &zapio.Writer{Log: zap.New(logCore, zap.ErrorOutput(zapcore.AddSync(io.Discard))), Level: level}
 	// in every second program the recorded messages are collected in batches, one at every Sync
@@ -208,6 +222,22 @@ func runProgram(ops []op, level zapcore.Level, toggles bool) string {
 		}
 		return ""
 	}
+	if sampled && level >= zapcore.DebugLevel && level <= zapcore.FatalLevel {
+		// the reference sampler: per 4096-bucket FNV-1a hash of the line's text, the first two pass
+		seen := map[uint32]int{}
+		var kept []string
+		for _, line := range m.out {
+			h := uint32(2166136261)
+			for k := 0; k < len(line); k++ {
+				h ^= uint32(line[k])
+				h *= 16777619
+			}
+			if seen[h%4096]++; seen[h%4096] <= 2 {
+				kept = append(kept, line)
+			}
+		}
+		m.out = kept
+	}
 	if len(got) != len(m.out) {
 		return fmt.Sprintf("logged %d messages, want %d: got %q want %q", len(got), len(m.out), msgs(got), clipS(m.out))
 	}
@@ -220,6 +250,81 @@ func runProgram(ops []op, level zapcore.Level, toggles bool) string {
 		}
 	}
 	return ""
+}
+
+// recT is a recording test handle for zaptest loggers.
+type recT struct {
+	mu   sync.Mutex
+	logs []string
+}
+
+func (t *recT) Logf(f string, a ...interface{}) {
+	t.mu.Lock()
+	t.logs = append(t.logs, fmt.Sprintf(f, a...))
+	t.mu.Unlock()
+}
+func (t *recT) Errorf(f string, a ...interface{}) { t.Logf(f, a...) }
+func (t *recT) Fail()                             {}
+func (t *recT) Failed() bool                      { return false }
+func (t *recT) Name() string                      { return "rec" }
+func (t *recT) FailNow()                          {}
+
+// throughTestLogger: the stream is logged through a zaptest logger (console lines handed to the test's
+// log): every line of the stream is the tail of one logged line, blanks, tabs and carriage returns at
+// its end included.
+func throughTestLogger(r *ev.Run) {
+	table := []string{"compiling package a ", "\t", "  2 warnings  ", "", "carriage return\r", " ", "plain", "tab at the end\t", "\t \t", "tail without newline  "}
+	n := r.N(200, 5000)
+	for i := 0; i < n; i++ {
+		id := fmt.Sprintf("c17/zaptest/%d", i)
+		if !r.Want(id) {
+			continue
+		}
+		g := rng.For(r.Seed, "c17/zaptest", i)
+		var lines []string
+		for k := g.Range(1, 8); k > 0; k-- {
+			lines = append(lines, rng.Pick(g, table))
+		}
+		stream := strings.Join(lines, "\n")
+		closed := g.Bool()
+		if closed {
+			stream += "\n"
+		}
+		t := &recT{}
+		w := &zapio.Writer{Log: zaptest.NewLogger(t, zaptest.Level(zapcore.DebugLevel)), Level: zapcore.InfoLevel}
+		for off := 0; off < len(stream); {
+			c := g.Range(1, 9)
+			if off+c > len(stream) {
+				c = len(stream) - off
+			}
+			if nw, err := w.Write([]byte(stream[off : off+c])); nw != c || err != nil {
+				r.Violate(ev.Violation{Case: id, Class: "zapio-through-test-logger", Msg: fmt.Sprintf("Write returned (%d, %v)", nw, err)})
+			}
+			off += c
+		}
+		_ = w.Close()
+		r.Eval(1)
+		r.Count("streams_through_a_zaptest_logger", 1)
+		r.Distinct(fmt.Sprintf("zaptest|%q", stream))
+		want := lines
+		if !closed && lines[len(lines)-1] == "" {
+			want = lines[:len(lines)-1] // nothing pending at Close
+		}
+		bad := ""
+		if len(t.logs) != len(want) {
+			bad = fmt.Sprintf("%d lines reached the test log, want %d", len(t.logs), len(want))
+		} else {
+			for k := range want {
+				if !strings.HasSuffix(t.logs[k], "\t"+want[k]) {
+					bad = fmt.Sprintf("line %d in the test log is %q, which does not end with the stream's line %q", k, t.logs[k], want[k])
+					break
+				}
+			}
+		}
+		if bad != "" {
+			r.Violate(ev.Violation{Case: id, Class: "zapio-through-test-logger", Msg: fmt.Sprintf("stream %q written in chunks through zapio.Writer over a zaptest logger: %s", stream, bad), Witness: t.logs})
+		}
+	}
 }
 
 func clip(s string) string {
@@ -405,4 +510,5 @@ func Run(r *ev.Run) {
 			r.Violate(ev.Violation{Case: id, Class: "lines-random", Msg: msg, Witness: render(ops)})
 		}
 	}
+	throughTestLogger(r)
 }
